@@ -30,3 +30,36 @@ package openapi3filter
 //@ extend func decodeBody
 //@   defines (result.2 == nil) == bodyDecodesOK(schema)
 //@   defines result.1 == bodyValue(schema)
+
+// ---- C13: the request stays readable. The body is read once; every return after that leaves a
+// reader holding the same bytes in Request.Body (through the request's own GetBody when it has one,
+// else through a reader this function creates); only a successful validation that injected defaults
+// replaces them, by the re-encoded value. With default-setting skipped nothing is ever replaced.
+//@ spec encodedBytes(value any, mediaType string) seqbyte
+//@ extend func encodeBody
+//@   defines bytes(result.0) == encodedBytes(body, mediaType)
+// the two readers-on-demand this function installs: each call yields a new reader over `data`
+//@ func ValidateRequestBody$1
+//@   modifies rdContent
+//@   ensures result.1 == nil && result.0 != nil && !old(allocated(ptr(result.0))) && rdContent[ptr(result.0)] == bytes(data)
+//@   ensures forall r ref :: old(allocated(r)) ==> rdContent[r] == old(rdContent)[r]
+//@   tag C13
+//@ func ValidateRequestBody$4
+//@   modifies rdContent
+//@   ensures result.1 == nil && result.0 != nil && !old(allocated(ptr(result.0))) && rdContent[ptr(result.0)] == bytes(data)
+//@   ensures forall r ref :: old(allocated(r)) ==> rdContent[r] == old(rdContent)[r]
+//@   tag C13
+//@ spec origBody(in *RequestValidationInput) seqbyte := rdContent[ptr(in.Request.Body)]
+//@ extend func ValidateRequestBody
+//@   assuming @C13 input != nil && input.Request != nil && requestBody != nil
+//@   assuming @C13 input.Request.GetBody != nil && hasBody(input) ==> getBodyBytes(input.Request) == origBody(input)
+//@   ensures @C13 [no-body-nothing-touched] !old(hasBody(input)) ==> input.Request.Body == old(input.Request.Body)
+//@   ensures @C13 [rejected-request-keeps-its-bytes] old(hasBody(input)) && result != nil ==> input.Request.Body != nil && rdContent[ptr(input.Request.Body)] == old(origBody(input))
+//@   ensures @C13 [defaults-skipped-bytes-identical] old(hasBody(input)) && old(input.Options) != nil && old(input.Options.SkipSettingDefaults) ==> input.Request.Body != nil && rdContent[ptr(input.Request.Body)] == old(origBody(input))
+//@   ensures @C13 [readable-in-full] old(hasBody(input)) && result == nil ==> input.Request.Body != nil && (rdContent[ptr(input.Request.Body)] == old(origBody(input)) || (exists v any, mt string :: rdContent[ptr(input.Request.Body)] == encodedBytes(v, mt)))
+//@   tag C13
+// decoding, encoding and the schema visit leave the request's body bookkeeping alone (call-graph scan)
+//@ extend func decodeBody
+//@   preserves @C13 http.Request.Body, http.Request.GetBody, http.Request.ContentLength, RequestValidationInput.*, Options.*
+//@ extend func encodeBody
+//@   preserves @C13 http.Request.Body, http.Request.GetBody, http.Request.ContentLength
